@@ -158,6 +158,7 @@ def run_task(task):
     """(func, scenario name, timeout_ms, prop) -> dict"""
     func, scname, timeout_ms, prop = task[:4]
     shard, nshards = (task[4], task[5]) if len(task) > 4 else (0, 1)
+    tier_samples = 6 if timeout_ms <= 10000 else 40
     t0 = time.time()
     out = {"func": func, "scenario": scname, "paths": [], "vcs": [], "error": None, "shard": shard}
     try:
@@ -207,6 +208,9 @@ def run_task(task):
                         d["args"] = None
                         d["model_error"] = repr(e)
                 out["vcs"].append(d)
+        # ---- path-directed inputs for the native (bounded) evaluation of the same contract on the real code
+        if ct is not None and ct.native and ct.native.get("call") and shard == 0:
+            out["samples"] = sample_inputs(w, ct, sc, results, tier_samples)
         from . import lib
 
         out["lib_used"] = sorted(lib.USED)
@@ -214,6 +218,81 @@ def run_task(task):
     except Exception:
         out["error"] = traceback.format_exc()
     out["secs"] = round(time.time() - t0, 3)
+    return out
+
+
+def sample_inputs(w, ct, sc, results, extra):
+    """Concrete argument tuples: one per explored path (a model of its path condition) plus `extra` models of the
+    scenario's precondition with randomly pinned numeric parameters."""
+    import random
+
+    import z3
+
+    from . import prove
+    from .contract import clause_truth
+    from .engine import Exec, Path
+
+    out, seen = [], set()
+
+    def add(model, origin):
+        try:
+            p2 = Path([])
+            e2 = Exec(w, p2)
+            env = sc.make(e2)
+            args = {k: describe(val, model) for k, val in env.items() if not k.startswith("ghost_")}
+        except Exception:  # noqa
+            return
+        key = json.dumps(args, sort_keys=True, default=str)
+        if key not in seen and '"opaque"' not in key:
+            seen.add(key)
+            out.append({"args": args, "origin": origin})
+
+    for r in results:
+        pc = getattr(r, "pc", None)
+        if not pc or r.outcome in ("infeasible",):
+            continue
+        s = z3.Solver()
+        s.set("timeout", 1500)
+        for c in pc:
+            s.add(c)
+        if s.check() == z3.sat:
+            add(s.model(), f"path:{r.outcome}")
+    # random pins on the precondition
+    base = Path([])
+    e0 = Exec(w, base)
+    try:
+        env = sc.make(e0)
+        fv = w.funcv(ct.func)
+        cenv = dict(env)
+        for req in list(ct.requires) + list(sc.requires):
+            base.assume(clause_truth(e0, req, cenv, fv.mi))
+    except Exception:  # noqa
+        return out
+    rng = random.Random(hash((ct.key, sc.name)) & 0xFFFF)
+
+    class _VC:
+        pc = base.pc
+        goal = z3.BoolVal(True)
+
+    params = prove._free_numeric_params(_VC)
+    ints = [0, 1, 2, 3, 4, 5, 7, 8, 9, 12, 16, 96]
+    reals = ["0", "1", "2", "5/2", "1/2", "10", "100", "950", "1/10", "33/10", "1000"]
+    s = z3.Solver()
+    s.set("timeout", 800)
+    for c in base.pc:
+        s.add(c)
+    for _ in range(extra):
+        s.push()
+        for prm in params:
+            if rng.random() < 0.5:
+                continue
+            s.add(prm == (rng.choice(ints) if z3.is_int(prm) else z3.RealVal(rng.choice(reals))))
+        try:
+            if s.check() == z3.sat:
+                add(s.model(), "random-pin")
+        except z3.Z3Exception:
+            pass
+        s.pop()
     return out
 
 
@@ -234,6 +313,19 @@ def native_run(job, timeout=120):
         return json.loads(p.stdout)
     except json.JSONDecodeError:
         return {"error": "bad output: " + p.stdout[-500:]}
+
+
+def native_batch(jobs, timeout=600):
+    if not jobs:
+        return []
+    env = dict(os.environ)
+    env["PYTHONPATH"] = f"{REPO}:{VERIF}"
+    try:
+        p = subprocess.run([NATIVE_PY, "-m", "pyvc.native_worker", "--batch"], input=json.dumps(jobs), capture_output=True, text=True,
+                           timeout=timeout, env=env, cwd=VERIF)
+        return json.loads(p.stdout)
+    except Exception as e:  # noqa
+        return [{"error": f"batch failed: {e!r}"} for _ in jobs]
 
 
 def build_job(ct, args, only_clause=None):
@@ -321,6 +413,32 @@ def check_property(prop, tier, seed):
     slowest.sort(reverse=True)
     # ---- bounded / native parts
     bounded = run_bounded(prop, tier, seed)
+    # path-directed native evaluation of the contracts on the real code (bounded, never counted as proved)
+    jobs, jobmeta = [], []
+    for res in results:
+        ct = w.contracts.get(res["func"])
+        for smp in res.get("samples", []) or []:
+            jobs.append(build_job(ct, smp["args"]))
+            jobmeta.append((res, smp))
+    outs = []
+    for i in range(0, len(jobs), 40):
+        outs.extend(native_batch(jobs[i:i + 40]))
+    nat_fail, nat_parts = [], {}
+    for (res, smp), job, o in zip(jobmeta, jobs, outs):
+        key = res["func"]
+        d = nat_parts.setdefault(key, {"function": key, "kind": "path-directed native evaluation of the contract clauses on the real function",
+                                       "evaluations": 0, "errors": 0, "bound": "one input per explored symbolic path + randomly pinned models of the precondition"})
+        if o.get("error"):
+            d["errors"] += 1
+            continue
+        d["evaluations"] += 1
+        if o.get("failed"):
+            nat_fail.append((res, smp, job, o))
+    bounded.setdefault("parts", []).extend(nat_parts.values())
+    bounded["evaluations"] = bounded.get("evaluations", 0) + sum(d["evaluations"] for d in nat_parts.values())
+    bounded["distinct"] = bounded.get("distinct", 0) + sum(d["evaluations"] for d in nat_parts.values())
+    if not bounded.get("rule"):
+        bounded["rule"] = "native evaluations are distinct argument tuples (deduplicated by value); each drives a distinct symbolic path or pin"
     # ---- report
     lines = []
     vio_count = 0
@@ -349,6 +467,19 @@ def check_property(prop, tier, seed):
             json.dump(replay, fh, indent=1, default=str)
         vio_count += 1
         lines.append(f"VIOLATION property={prop} replay={rp}" + ("" if confirmed else " no-failing-input-found"))
+    seen_nat = set()
+    for res, smp, job, o in nat_fail:
+        ident = (res["func"], res["scenario"], tuple(sorted(o["failed"])))
+        if ident in seen_nat:
+            continue
+        seen_nat.add(ident)
+        rp = os.path.join("replays", prop, safe(f"native__{res['func'].split('.')[-1]}__{res['scenario']}__{o['failed'][0]}") + ".json")
+        with open(os.path.join(VERIF, rp), "w") as fh:
+            json.dump({"property": prop, "obligation": f"{res['func']}/{o['failed'][0]}", "scenario": res["scenario"], "function": res["func"],
+                       "kind": "native contract evaluation (bounded)", "origin": smp["origin"], "args": smp["args"], "native_job": job,
+                       "native": o, "confirmed": True}, fh, indent=1, default=str)
+        vio_count += 1
+        lines.append(f"VIOLATION property={prop} replay={rp}")
     for b in bounded.get("failures", []):
         vio_count += 1
         lines.append(f"VIOLATION property={prop} replay={b['replay']}")
